@@ -22,3 +22,4 @@ open O2P.Gate
 #print axioms filter_defunct_sound
 #print axioms post_process_admits
 #print axioms post_process_checked
+#print axioms children_order_irrelevant
